@@ -53,7 +53,9 @@ TStep ==
                [] e.op = "clear" -> bag' = {} /\ dir' = dir
                [] e.op = "sort" -> bag' = bag /\ dir' = dir /\ SortedPerm(e.dir, e.vs, e.out)
                [] OTHER -> FALSE
-         /\ (e.op # "sort" => ObsOK(e, bag', dir'))
+         \* a blind event carries the call's own result only (no observer was called after it)
+         /\ (e.op # "sort" /\ e.blind = 0 => ObsOK(e, bag', dir'))
+         /\ e.panic = ""
 
 TSkip ==
   /\ l <= N
